@@ -441,9 +441,12 @@ class Spectrum:
             Wavelength units, as accepted by :func:`Unit`. Default is ``nm``.
 
         """
-        self.value = self.sample(wave, method=method, fill_value=fill_value,
-                                 waveunit=waveunit)
+        value = self.sample(wave, method=method, fill_value=fill_value,
+                            waveunit=waveunit)
+        # the wave setter validates the new grid: assign it first so that a
+        # rejected grid leaves wave and value consistent
         self.wave = wave
+        self.value = value
         self.waveunit = waveunit
 
     def bin(self, wave, interp_method='simps', ends='symmetric', preserve_power=True,
